@@ -539,7 +539,7 @@ def run(ctx):
     for st in shape_stat.values():
         st["acceptance_rate"] = round(st["accepted"] / st["programs"], 3) if st["programs"] else None
         st["closed_form_rate"] = round(st["closed_forms"] / st["monomials"], 3) if st["monomials"] else None
-    ctx.coverage["rule"] = ("programs from harness/classgen.py: 6 minimal witnesses + 14 in-class shapes (constants in conditions, nested branches "
+    ctx.coverage["rule"] = ("programs from harness/classgen.py: 8 minimal witnesses + 15 in-class shapes (constants in conditions, nested branches "
                             "reassigning their condition variables, non-integer finite values, goals over loop constants, simultaneous assignment in "
                             "branches, categorical expansion in a branch, multiple assignment of finite variables, guards, linear cycles, acyclic "
                             "non-linear dependencies, variable location parameters, 3..6-valued finite variables, all-finite programs, gen.G programs) + 7 out-of-class shapes; class membership = "
@@ -555,8 +555,8 @@ def run(ctx):
     ctx.coverage["programs_with_exact_reference"] = sum(1 for v_ in exact.values() if v_ is not None)
     ctx.coverage["trusted_base"] += ["harness/progast.py printers (the same AST is printed as Polar text and as a Coq term of type Syntax.prog)",
                                      "harness/tasks_core.classify_exception (type and innermost non-harness frame of the traceback)",
-                                     "InClass.in_class is a decidable SUFFICIENT condition for the README's restrictions (its value analysis is not "
-                                     "proved sound against Sem.run; a too-large class would show up as legitimate refusals reported as violations)"]
+                                     "InClass.in_class is a decidable SUFFICIENT condition for the README's restrictions (value analysis proved sound at "
+                                     "loop heads, C18_value_analysis_sound; a too-large class would show up as legitimate refusals reported as violations)"]
     ctx.assumptions += ["programs and monomials are sampled; acceptance of ALL in-class programs is not a theorem (no Coq model of the nine passes); "
                         "what is proved for all inputs: the graph model, the worklist closure/termination-in-a-closed-universe, the atom/constant models",
                         f"'a refusal is never a wrong result' is tested against the exact semantics for n <= {N} on finite discrete programs; "
